@@ -27,22 +27,22 @@ claim("C02",
       "Silencer.Mutes and the marker ids are compared, for all instants, with a direct evaluation of all stored silences. Queries concurrent with an update return the verdict before or after it and are exact again after quiescence.",
       "Bounds: k=2 slots (quick) / 3 (thorough), <=2 silences, matcher/alert pool (equality, regex+negation, OR-ed sets, UTF-8 name), whole-second instants. "
       "Concurrency: 1-2 Mutes calls against one update, preemption bound 1/2. " + TRUSTED, "4 C02")
-claim("C03 A rule with both two-sided and source-only sources of equal labels (whichever the index points at), and the real inhibitor fed by its own subscription in the assembled dispatcher+pipeline path.",
+claim("C03",
       "Bounded symbolic model checking of the real inhibitor over histories: sources fire, are refreshed, resolve, are garbage collected and fire again in arbitrary order "
-      "with symbolic end times; after every step Inhibitor.Mutes and the reported inhibiting alert are compared with the existential rule evaluated on the currently firing sources.",
+      "with symbolic end times; after every step Inhibitor.Mutes and the reported inhibiting alert are compared with the existential rule evaluated on the currently firing sources. A rule with both two-sided and source-only sources of equal labels (whichever the index points at), and the real inhibitor fed by its own subscription in the assembled dispatcher+pipeline path.",
       "Bounds: k=3 steps (quick) / 4 (thorough), 4 sources (two sharing equal labels, one with a missing label, one two-sided), 4 targets, rule pool of 3 rules. "
       "The subscription goroutine is outside (processAlert is driven directly). " + TRUSTED, "4 C03")
-claim("C04 A delivery that succeeds only after the flush deadline is still recorded (no early repeat).",
+claim("C04",
       "The dedup decision function is compared with the property's rule for every previous log entry, every firing/resolved set over a 3-alert universe, every "
-      "repeat interval and instant; the repeat window is checked on the real DedupStage+SetNotifiesStage+nflog with GC at arbitrary instants and the tick time taken from the context; histories of 3-4 flushes with symbolic gaps, per-flush firing/resolved sets and failing deliveries against the rule applied to the last recorded notification; classification at the wall clock when the tick lags.",
+      "repeat interval and instant; the repeat window is checked on the real DedupStage+SetNotifiesStage+nflog with GC at arbitrary instants and the tick time taken from the context; histories of 3-4 flushes with symbolic gaps, per-flush firing/resolved sets and failing deliveries against the rule applied to the last recorded notification; classification at the wall clock when the tick lags. A delivery that succeeds only after the flush deadline is still recorded (no early repeat).",
       "Bounds: 3 alert hashes, 1 group/receiver, one repeat window; histories of 3 (quick) / 4 flushes over 2 alerts. Timers and dispatcher restart are outside. " + TRUSTED, "4 C04")
 claim("C05",
       "One flush of a real aggregation group with 2-3 alerts whose ends lie anywhere around the flush instant, a delivery that takes symbolic time, may fail, and during which an alert may fire "
       "again: what is handed over as resolved/firing, that firing alerts cannot resolve in flight, deletion iff delivered+resolved+unmodified, destruction iff empty, re-fired alert reported firing next time. The receiver's real pipeline (fan-out goroutines, dedup, retry, record, real nflog) with one or two integrations of either send_resolved setting over two flushes: without send_resolved no resolved alert is ever listed, with it the batch is listed exactly and a resolution is reported at the next flush; a group resolved before its first flush sends nothing. Composition: resolution (explicit end or resolve timeout at a symbolic moment, re-fire before the reporting flush) through provider + Dispatcher.Run + real pipeline on one fixed fair schedule.",
       "Bounds: <=3 alerts, 2 flushes, one re-fire, 2 integrations, preemption bound 1/2. the 'nothing to send' decision under C04. Timers are outside. " + TRUSTED, "4 C05")
-claim("C06 The concurrent variant also starts without a group (a short-lived group of a resolved alert may be flushed and destroyed between another worker's lookup and insertion).",
+claim("C06",
       "Group labels and group membership for every group_by setting (unset, any subset, empty list, '...') on a root or on a child under a parent with any setting, and every label-set pair; group keys identical across two independently built dispatchers, depending only on the matcher path and the group labels; "
-      "exactly one group per matching route; the /alerts/groups view equals the partition; no split / no lost alert / consistent counters under interleavings of two ingestions, a destroying flush and maintenance.",
+      "exactly one group per matching route; the /alerts/groups view equals the partition; no split / no lost alert / consistent counters under interleavings of two ingestions, a destroying flush and maintenance. The concurrent variant also starts without a group (a short-lived group of a resolved alert may be flushed and destroyed between another worker's lookup and insertion).",
       "Bounds: 3 group_by labels, 5 label sets, a 5-route tree, 4 concurrent steps, preemption bound 1 (quick) / 2 (thorough). Counterexample schedules are confirmed natively with the same goroutines and the engine's "
       "order of arrival at synchronisation points enforced by overlay instrumentation (DESIGN.md 3.7); a schedule the native run cannot follow is reported as inconclusive (exit 2), not as a pass. " + TRUSTED, "4 C06")
 claim("C07",
@@ -55,44 +55,44 @@ claim("C08",
       "exactly one when every entry arrives faster than peer_timeout, nobody crashes and later positions do not flush earlier; an instance never sends twice. After a partition, one full-state message (MarshalBinary->Merge) makes the second instance silent for every group the first already notified.",
       "Bounds: 2 instances (quick) / 3 (thorough), one group, one flush round, delays 0..40 s, skew 0..20 s. memberlist, partitions beyond loss/delay of single entries, Settle, the position computation from the member list and "
       "the flush-timeout extension in app.setup are outside. " + TRUSTED, "4 C08")
-claim("C09 Full-state exchange through the instance's own MarshalBinary after lost single updates (an expiry is not dropped because the silence has ended).",
+claim("C09",
       "Bounded symbolic model checking of the real silence merge code: inductive merge step from an arbitrary pre-state, delivery-order/batching/duplication convergence "
-      "of 3 versions over 2 ids on two instances incl. indexes and query agreement, and propagation of API create/expire through the broadcast bytes.",
+      "of 3 versions over 2 ids on two instances incl. indexes and query agreement, and propagation of API create/expire through the broadcast bytes. Full-state exchange through the instance's own MarshalBinary after lost single updates (an expiry is not dropped because the silence has ended).",
       "Bounds: <=3 versions, 2 ids, instants 1970..2200 with nanoseconds. Codec opaque, transport outside. " + TRUSTED, "4 C09")
-claim("C10 Receiver data are returned unchanged whatever an abandoned later attempt does with the Store built from the held entry.",
+claim("C10",
       "Bounded symbolic model checking of the real nflog code: the merge step from an arbitrary pre-state (inductive), Log/Query/GC laws and "
-      "delivery-order convergence are each decided by SMT for all instants/flags within the stated bounds; an unsat answer covers every input on that path.",
+      "delivery-order convergence are each decided by SMT for all instants/flags within the stated bounds; an unsat answer covers every input on that path. Receiver data are returned unchanged whatever an abandoned later attempt does with the Store built from the held entry.",
       "Bounds: <=3 entries, 2 keys, <=4 operations, instants 1970..2200. Codec opaque. " + TRUSTED, "4 C10")
-claim("C11 Crash harnesses start with a stale temporary snapshot around; a second harness runs the maintenance loop (periodic + shutdown snapshot) around an in-place change.",
+claim("C11",
       "The real maintenance/shutdown snapshot code of silences and notification log runs on a crash-consistent file-system model: the process is killed before each of its file-system operations, or the machine loses power "
       "after completion; unsynced data survives only as an arbitrary prefix (possibly a torn record), an unsynced rename may be lost; the restarted instance must load, without error, exactly the old or exactly the new state. "
-      "Snapshot->load round trips (all field shapes, old single-list format, legacy comments) and loads of cut snapshots run through the real protobuf codec natively.",
+      "Snapshot->load round trips (all field shapes, old single-list format, legacy comments) and loads of cut snapshots run through the real protobuf codec natively. Crash harnesses start with a stale temporary snapshot around; a second harness runs the maintenance loop (periodic + shutdown snapshot) around an in-place change.",
       "Bounds: <=3 entries per state, one maintenance round, <=7 FS operations, 7 cut positions. The crash harnesses exist only in the engine (the FS model is a stub of package os; counterexamples are re-executed by `gosmt replay`); "
       "I/O errors (ENOSPC) are outside, as the property quantifies over kills and power loss; field-level wire-format equality is checked natively only on the sampled paths. " + TRUSTED, "4 C11")
-claim("C12 A history-rewriting edit concurrent with an end-only edit of the same id, with time allowed to pass while a goroutine is descheduled (slow=2).",
+claim("C12",
       "Lifecycle histories on the real silence store: create (start possibly in the past), then k arbitrary steps (edit comment/end/start/matchers, unknown id, expire twice, GC) at arbitrary "
-      "instants, compared with the lifecycle rules of the property; plus the API handler's rejections (end<=start, end in the past, empty-matching or invalid matchers, unknown id).",
+      "instants, compared with the lifecycle rules of the property; plus the API handler's rejections (end<=start, end in the past, empty-matching or invalid matchers, unknown id). A history-rewriting edit concurrent with an end-only edit of the same id, with time allowed to pass while a goroutine is descheduled (slow=2).",
       "Bounds: k=3 steps (quick) / 4 (thorough), one original silence plus replacements; two API calls never share one clock reading. HTTP decoding is outside. " + TRUSTED, "4 C12")
 claim("C13",
       "The real POST /alerts handler on batches of 1-3 alerts with/without start/end and valid/invalid labels (defaults, partial acceptance, status code); the real mem provider on two submissions of "
       "one label set with arbitrary explicit or timed-out ranges at arbitrary instants (earliest start, timeout pushed forward, explicit past end resolves, order of publication); GC removes exactly the resolved alerts; POST then GET /alerts through the real handlers, provider and routing tree: "
       "exactly the unexpired alerts passing the active/silenced/inhibited switches, once each, in fingerprint order, with stored times, routed receivers and the current suppression status.",
       "Bounds: batch <=3, 2 submissions per label set, 3 alerts for GC, 2-3 alerts for GET (silencer/inhibitor represented by a status function keyed on labels). JSON/OpenAPI decoding and the filter/receiver query parameters are outside. " + TRUSTED, "4 C13")
-claim("C14 The racing updates also go into an already registered group.",
+claim("C14",
       "The dispatcher's real ingestion workers (run) consume 2-3 back-to-back versions of one alert; the engine explores every assignment of updates to workers and every "
-      "interleaving at channel/sync.Map/store-lock granularity within a preemption bound and asserts that every group ends with the version submitted last.",
+      "interleaving at channel/sync.Map/store-lock granularity within a preemption bound and asserts that every group ends with the version submitted last. The racing updates also go into an already registered group.",
       "Bounds: 2 updates x 2 workers, preemption bound 1 (quick); 3 updates, 2-3 workers, preemption bound 2 (thorough). Counterexample schedules are confirmed natively on the real worker goroutines with the "
       "engine's order of arrival at synchronisation points enforced by overlay instrumentation (DESIGN.md 3.7). Preemption between non-synchronising instructions is outside. " + TRUSTED, "4 C14")
-claim("C15 Three successive flushes through the active/mute stages with one shared group marker leave the route's interval lists untouched and gate each flush on its own.",
+claim("C15",
       "ContainsTime is compared with the documented meaning for every accepted interval specification (up to 1-2 ranges per field, each field possibly absent, symbolic bounds) and for every "
       "minute of the years 1970..2099: the instant is an abstract Gregorian date-time whose components are symbolic and tied together exactly (month lengths, leap years, weekday, Unix seconds). "
-      "The mute/active stages are run with the real Intervener at an arbitrary tick.",
+      "The mute/active stages are run with the real Intervener at an arbitrary tick. Three successive flushes through the active/mute stages with one shared group marker leave the route's interval lists untouched and gate each flush on its own.",
       "Bounds: 1 range per field (thorough: 2 for times and days of month), years 1970..2099 (the century leap exceptions are outside); interval location absent, any fixed offset within +-14h, or a zone with one transition (spring-forward / fall-back at a fixed instant of 2024, instants of that year); the tz database itself is outside. Go's calendar arithmetic is trusted; "
       "the engine's calendar model is cross-checked natively on every sampled path. The HH:MM and name parsers and YAML are outside. " + TRUSTED, "4 C15")
-claim("C16 The fallback decision table also for every input job=<v> with v any 1-3 bytes (both parsers on symbolic bytes); names outside the classic syntax round-trip through the quoted form.",
+claim("C16",
       "The UTF-8 matcher lexer/parser is executed on an arbitrary buffer of up to 4 (quick) / 6 (thorough) symbolic bytes: no panic, termination within the unwinding bound; printing a matcher "
       "with any operator and an arbitrary valid UTF-8 value of up to 4/6 bytes and parsing it back is the identity (also in a list); match semantics for all operators with symbolic label values, "
-      "missing/empty labels, conjunction/disjunction and regex anchoring (compiled regexp programs run symbolically on values of up to 3 arbitrary bytes); the classic parser (list splitting, its regular expression, unescaping) on the printed form of 1-2 matchers with arbitrary valid UTF-8 values of up to 2/3 bytes; the fallback decision table on inputs covering every verdict combination of the two real parsers.",
+      "missing/empty labels, conjunction/disjunction and regex anchoring (compiled regexp programs run symbolically on values of up to 3 arbitrary bytes); the classic parser (list splitting, its regular expression, unescaping) on the printed form of 1-2 matchers with arbitrary valid UTF-8 values of up to 2/3 bytes; the fallback decision table on inputs covering every verdict combination of the two real parsers. The fallback decision table also for every input job=<v> with v any 1-3 bytes (both parsers on symbolic bytes); names outside the classic syntax round-trip through the quoted form.",
       "Bit-vector arithmetic. Regexp compilation is native (patterns come from pools), matching is a symbolic backtracking interpreter of the compiled program; names with reserved "
       "characters (strconv.Quote) and inputs longer than the bound are outside. " + TRUSTED, "4 C16")
 claim("C17",
@@ -106,16 +106,16 @@ claim("C18",
       "the GET concurrency limiter with 2-4 concurrent GET/POST requests against a busy handler (at most L GETs inside, the rest 503 at once and counted, POSTs never refused, slots released).",
       "Bounds: limit<=3, <=2N+3 operations (two GC rounds in the thorough tier), 3 silences, GET limit 1-2 with <=5 requests, preemption bound 1/2. The HTTP server and TimeoutHandler around the limiter are outside. " + TRUSTED, "4 C18")
 
-claim("C19 Two back-to-back updates (same size or smaller) keep their own content while queued.",
+claim("C19",
       "Receive path of the real cluster delegate on full-state messages with up to 3 parts (registered/unknown keys, well-formed/malformed payloads, any order), single updates, "
-      "duplicates and undecodable bytes; LocalState completeness; send-side routing of Channel.Broadcast (small vs oversized, every peer, failing peer) with the real sender goroutines.",
+      "duplicates and undecodable bytes; LocalState completeness; send-side routing of Channel.Broadcast (small vs oversized, every peer, failing peer) with the real sender goroutines. Two back-to-back updates (same size or smaller) keep their own content while queued.",
       "Only 'given that memberlist hands the bytes to the delegate / asks it for state, nothing is lost or blocked on our side' is claimed: memberlist itself (UDP gossip, TCP push/pull, "
       "liveness) cannot be encoded. Encoded sizes are a stand-in (payload length), so only sizes far from the threshold are used. " + TRUSTED, "4 C19")
 
-claim("C20 The data handed to every integration is exactly its batch also when a sibling filters resolved alerts; the webhook notifier reports every transport failure, the per-attempt timeout included, as recoverable (engine-only harness with template/JSON/HTTP stubbed).",
+claim("C20",
       "The real RetryStage against a scripted integration for every per-attempt outcome sequence (success / recoverable / unrecoverable / hang) of up to 3-4 attempts and every deadline position; "
       "the receiver's real stage (ClusterWait->Dedup->Retry->SetNotifies per integration under Fanout, real goroutines explored) for record-after-success and sibling isolation; Retrier.Check for every status "
-      "code; webhook max_alerts; the template data laws (exact batch, status, common labels/annotations as intersections); byte and rune truncation of arbitrary valid UTF-8 strings of up to 6/8 bytes for every limit 0..8.",
+      "code; webhook max_alerts; the template data laws (exact batch, status, common labels/annotations as intersections); byte and rune truncation of arbitrary valid UTF-8 strings of up to 6/8 bytes for every limit 0..8. The data handed to every integration is exactly its batch also when a sibling filters resolved alerts; the webhook notifier reports every transport failure, the per-attempt timeout included, as recoverable (engine-only harness with template/JSON/HTTP stubbed).",
       "Bounds: 4 attempts, 2 integrations, 3 alerts. The back-off ticker is a stub that ticks whenever the scheduler picks it (back-off durations outside); HTTP, template execution and the concrete notifiers "
       "are outside. " + TRUSTED, "4 C20")
 
